@@ -67,7 +67,8 @@ class Interp:
 
     LOG_PREFIXES = ("_LOGGER.", "logging.")
 
-    def __init__(self, env, call_hook=None, on_store=None, loop_hook=None, strict=False, name_hook=None):
+    def __init__(self, env, call_hook=None, on_store=None, loop_hook=None, strict=False, name_hook=None, attr_hook=None):
+        self.attr_hook = attr_hook  # attribute of a modelled object that is not stored on it (a @property of its class)
         self.name_hook = name_hook  # resolves free names / attributes of free names (class references, builtins) or returns NotImplemented
         self.strict = strict  # concrete evaluation: a failed lookup is the program's own KeyError/IndexError, not a missing domain
         self.env = dict(env)
@@ -116,6 +117,10 @@ class Interp:
                 return base[node.attr]
             if node.attr == "__name__" and isinstance(base, str) and U(node.value).endswith("__class__"):
                 return base  # object models store their class by name
+            if self.attr_hook is not None and isinstance(base, dict):
+                got = self.attr_hook(self, base, node.attr, node)
+                if got is not NotImplemented:
+                    return got
             if isinstance(base, dict) and node.attr in base.get("__props__", ()):
                 return base["__props__"][node.attr](base)  # a property of the modelled object, computed at access time
             if isinstance(base, Unknown):
@@ -140,6 +145,8 @@ class Interp:
                 return not self.truth(self.ev(node.operand), node.operand)
             if isinstance(node.op, ast.USub):
                 return -self.ev(node.operand)
+            if isinstance(node.op, ast.UAdd):
+                return +self.ev(node.operand)
         if isinstance(node, ast.Compare):
             left = self.ev(node.left)
             for op, comp in zip(node.ops, node.comparators):
